@@ -231,6 +231,12 @@ TPbBlock == /\ Tr[l].e = "PbBlock"
                    /\ Remember(e.pw)
             /\ UNCHANGED <<hs, ms, ks, D>>
 
+\* events of the other families (system-level traces): stuttering steps for this specification
+Own == {"Reset", "Garbage", "Hash", "HInit", "HReinit", "HUpdate", "HFinal", "HFree", "Hmac", "HmInit", "HmReinit", "HmUpdate",
+        "HmFinal", "HmFree", "Hkdf", "HkdfHead", "PbHead", "HkdfBlock", "HkExtract", "HkExpand", "HkExpandCtl", "HkFree",
+        "Pbkdf2", "PbBlock"}
+TForeign == Tr[l].e \notin Own \cup {"Fault", "San", "Hang", "Garbled"} /\ UNCHANGED <<hs, ms, ks, D, kc>>
+
 Init == /\ l = 1 /\ InitRegs
         /\ hs = [o \in Objs |-> Garbage] /\ ms = [o \in Objs |-> Garbage]
         /\ ks = [o \in Objs |-> NoKdf] /\ D = {} /\ kc = NoKc
@@ -239,7 +245,7 @@ Next == /\ l <= Len(Tr)
         /\ l' = l + 1
         /\ \/ TReset \/ TGarbage \/ THash \/ THInit \/ THUpdate \/ THFinal \/ THFree
            \/ THmac \/ THmInit \/ THmUpdate \/ THmFinal \/ THmFree
-           \/ THkdf \/ THkdfHead \/ TPbHead \/ THkdfBlock \/ THkExtract \/ THkExpand \/ THkExpandCtl \/ THkFree \/ TPbkdf2 \/ TPbBlock
+           \/ TForeign \/ THkdf \/ THkdfHead \/ TPbHead \/ THkdfBlock \/ THkExtract \/ THkExpand \/ THkExpandCtl \/ THkFree \/ TPbkdf2 \/ TPbBlock
 
 Spec == Init /\ [][Next]_vars
 TraceAccepted == Accepted(Len(Tr))
